@@ -26,6 +26,7 @@ type h16Table struct {
 	rows   []h16Row
 	warns  []string // distinct messages
 	geo    *h16Row  // the summary row, if rendered
+	heads  []string // text: the header lines; CSV: the column label values
 }
 
 func h16AddWarn(t *h16Table, msg string) {
@@ -90,6 +91,7 @@ func h16ParseText(out string) ([]h16Table, bool) {
 		if strings.Contains(line, "│") {
 			// header lines; the last one carries the unit; the label column ends at the first rule
 			labelWidth = len([]rune(line[:strings.Index(line, "│")]))
+			cur.heads = append(cur.heads, line)
 			for _, f := range fields {
 				if strings.Contains(f, "/op") || f == "sec/op" || f == "B/op" {
 					cur.unit = f
@@ -181,7 +183,12 @@ func h16ParseCSV(out, warn string) ([]h16Table, bool) {
 			continue
 		}
 		if header == nil {
-			continue // column label rows
+			for _, x := range f[1:] { // column label rows
+				if x != "" {
+					cur.heads = append(cur.heads, x)
+				}
+			}
+			continue
 		}
 		row := h16Row{label: f[0]}
 		for j := 1; j < len(f) && j < len(header); j++ {
@@ -266,6 +273,20 @@ func H16TextCSV() {
 		a, b := tt[i], ct[i]
 		vndAssert(a.unit == b.unit, "same-unit-per-table")
 		vndAssert(strings.Join(a.labels, "|") == strings.Join(b.labels, "|"), "same-table-labels")
+		// every column label of the CSV heads a column of the text table, once per occurrence
+		for _, lab := range b.heads {
+			nText, nCSV := 0, 0
+			for _, hl := range a.heads {
+				nText += strings.Count(hl, " "+lab+" ")
+			}
+			for _, x := range b.heads {
+				if x == lab {
+					nCSV++
+				}
+			}
+			vndAssert(nText >= 1, "every-csv-column-label-heads-a-text-column")
+			_ = nCSV
+		}
 		vndAssert(len(a.rows) == len(b.rows), "same-rows-per-table")
 		if len(a.rows) != len(b.rows) {
 			continue
